@@ -2,7 +2,9 @@
 # seed_try.sh <patch.diff> <Cxx> [tier]: run a check against the scratch worktree /tmp/seedrun with the patch applied
 set -u
 P="$1"; ID="$2"; TIER="${3:-quick}"
-W=/tmp/seedrun
+W="${SEEDRUN:-/tmp/seedrun}"
+[ -d "$W" ] || git -C /repo worktree add -q --detach "$W" HEAD
+git -C "$W" checkout -q --detach "$(git -C /repo rev-parse HEAD)" 2>/dev/null
 cd "$W" && git checkout -q -- . && git clean -fdq src >/dev/null 2>&1
 git apply "$P" || { echo "PATCH DOES NOT APPLY"; exit 2; }
 cd /verif && VERIF_REPO="$W" ./check "$ID" "$TIER" 2>&1 | grep -v "sqlite\|^ *[0-9]* |\|^ *|" | grep "VIOLATION\|signature:\|$ID $TIER\|MACHINERY\|KNOWN" | sed 's/replay=.*//' | sort | uniq -c | sort -rn | head -12
